@@ -227,6 +227,11 @@ func c19Scenario(c *choice.Ctx, rep *report.R, depth int) {
 		}
 		menu = append(menu, event{name: "advance1s", do: func() { hsleep(time.Second) }})
 		menu = append(menu, event{name: "advance5.5s", do: func() { hsleep(5500 * time.Millisecond) }})
+		if len(u.Pending()) > 0 {
+			// past the refresh's own deadline (6 s): whatever the router does with a refresh that timed out, a later hit must not
+			// meet two of them
+			menu = append(menu, event{name: "advance6.5s", do: func() { hsleep(6500 * time.Millisecond) }})
+		}
 		ev := pickEvent(c, menu)
 		if ev == nil {
 			break
